@@ -27,43 +27,46 @@ Definition lead (b0 : N) : option (N * N * N) :=
 
 Definition cont (b : N) : bool := in_range 128 191 b.
 
-Fixpoint utf8_decode (bs : list N) : list N :=
+Fixpoint utf8_decode_with (bad : N) (bs : list N) : list N :=
   match bs with
   | [] => []
   | b0 :: r0 =>
-      if b0 <? 128 then b0 :: utf8_decode r0
+      if b0 <? 128 then b0 :: utf8_decode_with bad r0
       else
         match lead b0 with
-        | None => rune_error :: utf8_decode r0
+        | None => bad :: utf8_decode_with bad r0
         | Some (sz, lo, hi) =>
             match r0 with
-            | [] => [rune_error]
+            | [] => [bad]
             | b1 :: r1 =>
-                if negb (in_range lo hi b1) then rune_error :: utf8_decode r0
+                if negb (in_range lo hi b1) then bad :: utf8_decode_with bad r0
                 else if sz =? 2 then
-                  ((b0 mod 32) * 64 + b1 mod 64) :: utf8_decode r1
+                  ((b0 mod 32) * 64 + b1 mod 64) :: utf8_decode_with bad r1
                 else
                   match r1 with
-                  | [] => rune_error :: utf8_decode r0
+                  | [] => bad :: utf8_decode_with bad r0
                   | b2 :: r2 =>
-                      if negb (cont b2) then rune_error :: utf8_decode r0
+                      if negb (cont b2) then bad :: utf8_decode_with bad r0
                       else if sz =? 3 then
                         ((b0 mod 16) * 4096 + (b1 mod 64) * 64 + b2 mod 64)
-                          :: utf8_decode r2
+                          :: utf8_decode_with bad r2
                       else
                         match r2 with
-                        | [] => rune_error :: utf8_decode r0
+                        | [] => bad :: utf8_decode_with bad r0
                         | b3 :: r3 =>
-                            if negb (cont b3) then rune_error :: utf8_decode r0
+                            if negb (cont b3) then bad :: utf8_decode_with bad r0
                             else
                               ((b0 mod 8) * 262144 + (b1 mod 64) * 4096
                                + (b2 mod 64) * 64 + b3 mod 64)
-                                :: utf8_decode r3
+                                :: utf8_decode_with bad r3
                         end
                   end
             end
         end
   end.
+
+(** The decoder of [ReadRune]: an undecodable byte reads as U+FFFD. *)
+Notation utf8_decode := (utf8_decode_with rune_error).
 
 Definition is_surrogate (r : N) : bool := in_range 55296 57343 r.
 
@@ -83,34 +86,34 @@ Definition utf8_encode (rs : list N) : list N := flat_map encode_rune rs.
 
 Ltac Zify.zify_post_hook ::= Z.div_mod_to_equations.
 
-Lemma decode_1 b0 rest : b0 < 128 -> utf8_decode (b0 :: rest) = b0 :: utf8_decode rest.
-Proof. intros H. cbn [utf8_decode]. replace (b0 <? 128) with true by lia. reflexivity. Qed.
+Lemma decode_1 bad b0 rest : b0 < 128 -> utf8_decode_with bad (b0 :: rest) = b0 :: utf8_decode_with bad rest.
+Proof. intros H. cbn [utf8_decode_with]. replace (b0 <? 128) with true by lia. reflexivity. Qed.
 
-Lemma decode_2 b0 b1 lo hi rest :
+Lemma decode_2 bad b0 b1 lo hi rest :
   128 <= b0 -> lead b0 = Some (2, lo, hi) -> in_range lo hi b1 = true ->
-  utf8_decode (b0 :: b1 :: rest) = ((b0 mod 32) * 64 + b1 mod 64) :: utf8_decode rest.
+  utf8_decode_with bad (b0 :: b1 :: rest) = ((b0 mod 32) * 64 + b1 mod 64) :: utf8_decode_with bad rest.
 Proof.
-  intros H0 Hl H1. cbn [utf8_decode]. replace (b0 <? 128) with false by lia.
+  intros H0 Hl H1. cbn [utf8_decode_with]. replace (b0 <? 128) with false by lia.
   rewrite Hl, H1. reflexivity.
 Qed.
 
-Lemma decode_3 b0 b1 b2 lo hi rest :
+Lemma decode_3 bad b0 b1 b2 lo hi rest :
   128 <= b0 -> lead b0 = Some (3, lo, hi) -> in_range lo hi b1 = true -> cont b2 = true ->
-  utf8_decode (b0 :: b1 :: b2 :: rest)
-  = ((b0 mod 16) * 4096 + (b1 mod 64) * 64 + b2 mod 64) :: utf8_decode rest.
+  utf8_decode_with bad (b0 :: b1 :: b2 :: rest)
+  = ((b0 mod 16) * 4096 + (b1 mod 64) * 64 + b2 mod 64) :: utf8_decode_with bad rest.
 Proof.
-  intros H0 Hl H1 H2. cbn [utf8_decode]. replace (b0 <? 128) with false by lia.
+  intros H0 Hl H1 H2. cbn [utf8_decode_with]. replace (b0 <? 128) with false by lia.
   rewrite Hl, H1, H2. reflexivity.
 Qed.
 
-Lemma decode_4 b0 b1 b2 b3 lo hi rest :
+Lemma decode_4 bad b0 b1 b2 b3 lo hi rest :
   128 <= b0 -> lead b0 = Some (4, lo, hi) -> in_range lo hi b1 = true ->
   cont b2 = true -> cont b3 = true ->
-  utf8_decode (b0 :: b1 :: b2 :: b3 :: rest)
+  utf8_decode_with bad (b0 :: b1 :: b2 :: b3 :: rest)
   = ((b0 mod 8) * 262144 + (b1 mod 64) * 4096 + (b2 mod 64) * 64 + b3 mod 64)
-      :: utf8_decode rest.
+      :: utf8_decode_with bad rest.
 Proof.
-  intros H0 Hl H1 H2 H3. cbn [utf8_decode]. replace (b0 <? 128) with false by lia.
+  intros H0 Hl H1 H2 H3. cbn [utf8_decode_with]. replace (b0 <? 128) with false by lia.
   rewrite Hl, H1, H2, H3. reflexivity.
 Qed.
 
@@ -151,23 +154,23 @@ Proof.
   - lia.
 Qed.
 
-Lemma dec2 a c rest : 2 <= a < 32 -> c < 64 ->
-  utf8_decode (192 + a :: 128 + c :: rest) = (a * 64 + c) :: utf8_decode rest.
+Lemma dec2 bad a c rest : 2 <= a < 32 -> c < 64 ->
+  utf8_decode_with bad (192 + a :: 128 + c :: rest) = (a * 64 + c) :: utf8_decode_with bad rest.
 Proof.
-  intros Ha Hc. rewrite (decode_2 _ _ 128 191).
+  intros Ha Hc. rewrite (decode_2 bad _ _ 128 191).
   - f_equal. lia.
   - lia.
   - apply lead_some; lia.
   - unfold in_range. lia.
 Qed.
 
-Lemma dec3 a b c rest : a < 16 -> b < 64 -> c < 64 ->
+Lemma dec3 bad a b c rest : a < 16 -> b < 64 -> c < 64 ->
   (a = 0 -> 32 <= b) -> (a = 13 -> b < 32) ->
-  utf8_decode (224 + a :: 128 + b :: 128 + c :: rest)
-  = (a * 4096 + b * 64 + c) :: utf8_decode rest.
+  utf8_decode_with bad (224 + a :: 128 + b :: 128 + c :: rest)
+  = (a * 4096 + b * 64 + c) :: utf8_decode_with bad rest.
 Proof.
   intros Ha Hb Hc H0 H13.
-  rewrite (decode_3 _ _ _ (if 224 + a =? 224 then 160 else 128)
+  rewrite (decode_3 bad _ _ _ (if 224 + a =? 224 then 160 else 128)
              (if 224 + a =? 237 then 159 else 191)).
   - f_equal. lia.
   - lia.
@@ -176,13 +179,13 @@ Proof.
   - unfold cont, in_range. lia.
 Qed.
 
-Lemma dec4 a b c d rest : a < 5 -> b < 64 -> c < 64 -> d < 64 ->
+Lemma dec4 bad a b c d rest : a < 5 -> b < 64 -> c < 64 -> d < 64 ->
   (a = 0 -> 16 <= b) -> (a = 4 -> b < 16) ->
-  utf8_decode (240 + a :: 128 + b :: 128 + c :: 128 + d :: rest)
-  = (a * 262144 + b * 4096 + c * 64 + d) :: utf8_decode rest.
+  utf8_decode_with bad (240 + a :: 128 + b :: 128 + c :: 128 + d :: rest)
+  = (a * 262144 + b * 4096 + c * 64 + d) :: utf8_decode_with bad rest.
 Proof.
   intros Ha Hb Hc Hd H0 H4.
-  rewrite (decode_4 _ _ _ _ (if 240 + a =? 240 then 144 else 128)
+  rewrite (decode_4 bad _ _ _ _ (if 240 + a =? 240 then 144 else 128)
              (if 240 + a =? 244 then 143 else 191)).
   - f_equal. lia.
   - lia.
@@ -226,8 +229,8 @@ Proof.
   cbn [negb]. now rewrite div262144, div4096.
 Qed.
 
-Lemma de_2 r rest : 128 <= r < 2048 ->
-  utf8_decode ([192 + r / 64; 128 + r mod 64] ++ rest) = r :: utf8_decode rest.
+Lemma de_2 bad r rest : 128 <= r < 2048 ->
+  utf8_decode_with bad ([192 + r / 64; 128 + r mod 64] ++ rest) = r :: utf8_decode_with bad rest.
 Proof.
   intros H.
   destruct (split64 r) as [E1 B1]. set (d := r mod 64) in *. set (q1 := r / 64) in *.
@@ -235,9 +238,9 @@ Proof.
   cbn [app]. rewrite dec2 by lia. f_equal. lia.
 Qed.
 
-Lemma de_3 r rest : 2048 <= r < 65536 -> (55296 <=? r) && (r <=? 57343) = false ->
-  utf8_decode ([224 + r / 64 / 64; 128 + (r / 64) mod 64; 128 + r mod 64] ++ rest)
-  = r :: utf8_decode rest.
+Lemma de_3 bad r rest : 2048 <= r < 65536 -> (55296 <=? r) && (r <=? 57343) = false ->
+  utf8_decode_with bad ([224 + r / 64 / 64; 128 + (r / 64) mod 64; 128 + r mod 64] ++ rest)
+  = r :: utf8_decode_with bad rest.
 Proof.
   intros Hv Hs.
   destruct (split64 r) as [E1 B1]. set (d := r mod 64) in *. set (q1 := r / 64) in *.
@@ -247,10 +250,10 @@ Proof.
   cbn [app]. rewrite dec3 by lia. f_equal. lia.
 Qed.
 
-Lemma de_4 r rest : 65536 <= r <= 1114111 ->
-  utf8_decode ([240 + r / 64 / 64 / 64; 128 + (r / 64 / 64) mod 64;
+Lemma de_4 bad r rest : 65536 <= r <= 1114111 ->
+  utf8_decode_with bad ([240 + r / 64 / 64 / 64; 128 + (r / 64 / 64) mod 64;
                 128 + (r / 64) mod 64; 128 + r mod 64] ++ rest)
-  = r :: utf8_decode rest.
+  = r :: utf8_decode_with bad rest.
 Proof.
   intros Hv.
   destruct (split64 r) as [E1 B1]. set (d := r mod 64) in *. set (q1 := r / 64) in *.
@@ -266,9 +269,9 @@ Lemma valid_rune_spec r :
   valid_rune r = true <-> r <= 1114111 /\ (r < 55296 \/ 57343 < r).
 Proof. unfold valid_rune, is_surrogate, in_range, max_rune. lia. Qed.
 
-Lemma decode_encode_rune r rest :
+Lemma decode_encode_rune bad r rest :
   valid_rune r = true ->
-  utf8_decode (encode_rune r ++ rest) = r :: utf8_decode rest.
+  utf8_decode_with bad (encode_rune r ++ rest) = r :: utf8_decode_with bad rest.
 Proof.
   intros Hv. destruct (proj1 (valid_rune_spec r) Hv) as [Hm Hs].
   destruct (N.ltb_spec r 128) as [H1|H1].
@@ -280,8 +283,8 @@ Proof.
   rewrite enc_4 by (try lia; exact Hv). apply de_4. lia.
 Qed.
 
-Lemma decode_encode rs :
-  forallb valid_rune rs = true -> utf8_decode (utf8_encode rs) = rs.
+Lemma decode_encode bad rs :
+  forallb valid_rune rs = true -> utf8_decode_with bad (utf8_encode rs) = rs.
 Proof.
   induction rs as [|r rs IH]; intros H; [reflexivity|].
   cbn [forallb] in H. apply andb_true_iff in H as [Hr Hrs].
@@ -299,7 +302,7 @@ Proof.
   cbn [forallb] in Hb. apply andb_true_iff in Hb as [Hb0 Hr0].
   assert (IH0 : forallb valid_rune (utf8_decode r0) = true)
     by (apply IH; [cbn [length]; lia | exact Hr0]).
-  cbn [utf8_decode].
+  cbn [utf8_decode_with].
   destruct (N.ltb_spec b0 128) as [E0|E0].
   { cbn [forallb]. rewrite IH0, andb_true_r. apply valid_rune_spec. lia. }
   pose proof (lead_range b0 E0) as Hl.
@@ -344,7 +347,7 @@ Proof.
   induction bs as [bs IH] using (induction_ltof1 _ (@length N)). unfold ltof in IH.
   destruct bs as [|b0 r0]; [cbn; lia|].
   assert (I0 := IH r0 ltac:(cbn; lia)).
-  cbn [utf8_decode].
+  cbn [utf8_decode_with].
   destruct (b0 <? 128); [cbn [length]; lia|].
   destruct (lead b0) as [[[sz lo] hi]|]; [|cbn [length]; lia].
   destruct r0 as [|b1 r1]; [cbn; lia|].
